@@ -244,7 +244,8 @@ func c09Run(env *core.Env, ci any) core.Outcome {
 			args = []string{"-P", sb.path("list.txt")}
 		case "P-list-odd":
 			// the same list in a legal but unusual spelling: blank lines, no newline after the last entry
-			if err := writeFile(sb.path("list.txt"), "\n\n"+strings.TrimSuffix(strings.ReplaceAll(list(c.Seq), "\n", "\n\n"), "\n\n")); err != nil {
+			rel := list(c.Seq)
+			if err := writeFile(sb.path("list.txt"), "\n\n"+strings.TrimSuffix(strings.ReplaceAll(rel, "\n", "\n\n"), "\n\n")); err != nil {
 				panic(err)
 			}
 			args = []string{"-P", sb.path("list.txt")}
